@@ -229,6 +229,13 @@ class Executor:
         self.partial_loops: list = []
         self._binders: list = []
         self._number_loops(fn_node)
+        # call sites of one callee in source order: a contract may be attached to one site with the key "<callee>#<ordinal>"
+        self.call_ord = {}
+        seen_calls = {}
+        for c_ in sorted((n for n in ast.walk(fn_node) if isinstance(n, ast.Call)), key=lambda n: (n.lineno, n.col_offset)):
+            t_ = ast.unparse(c_.func)
+            self.call_ord[id(c_)] = seen_calls.get(t_, 0)
+            seen_calls[t_] = seen_calls.get(t_, 0) + 1
         self.ret_ids = {}
         for n_, r_ in enumerate(sorted((n for n in ast.walk(fn_node) if isinstance(n, ast.Return)), key=lambda n: (n.lineno, n.col_offset))):
             self.ret_ids[id(r_)] = n_
@@ -789,6 +796,9 @@ class Executor:
                 return self.ite(z3.Select(basev.has, kt), self.dict_get(basev, kt), dflt)
         if isinstance(fn, ast.Attribute):
             qual = ast.unparse(fn)
+            site = f"{qual}#{self.call_ord.get(id(node), 0)}"
+            if site in self.c.get("uses", {}):
+                return self.call_contract(self.c["uses"][site], node.args, st, site)
             if qual in self.c.get("uses", {}):
                 return self.call_contract(self.c["uses"][qual], node.args, st, qual)
             raise OutOfSubset(f"method call {qual} in expression position")
@@ -843,11 +853,21 @@ class Executor:
         for k, r in enumerate(callee.get("requires", [])):
             g = self.truth(self.ev(_parse(r), sub, True), sub)
             self.vc(st, "callpre", f"callpre.{name}#{k}", g, r)
+        for pn in callee.get("modifies", []):          # list arguments the callee changes in place: new value constrained by the postcondition
+            idx_ = list(callee["params"]).index(pn)
+            an = arg_nodes[idx_]
+            if not (isinstance(an, ast.Name) and isinstance(sub.env[pn], ListV)):
+                raise OutOfSubset("an argument modified in place must be a list variable")
+            sub.env["old_" + pn] = sub.env[pn]
+            sub.env[pn] = mk_list(f"{pn}_after!{next(_fresh)}", sub.env[pn].elem)
+            st.pc.append(sub.env[pn].n >= 0)
         res = self.make_param(f"{name}_res!{next(_fresh)}", callee.get("returns", "none"))
         sub.env["result"] = res
         for r in callee.get("ensures", []):
             fact = self.truth(self.ev(_parse(r), sub, True), sub)
             st.pc.append(fact)
+        for pn in callee.get("modifies", []):
+            st.env[arg_nodes[list(callee["params"]).index(pn)].id] = sub.env[pn]
         if callee.get("ghost_after"):                                    # effect of the call on the caller's ghost state; the
             saved = {}                                                   # callee's arguments / result are visible as arg_<name> / call_result
             for pn in list(callee["params"]) + ["result"]:
@@ -1476,9 +1496,14 @@ class Executor:
                 raise OutOfSubset("break/continue outside loop")
             if sig == "fall":
                 sig, val = "return", NoneV()
+                sx.env.pop("§ret", None)
             if sig == "return":
                 sx.env["result"] = val
-                for hn, hint in enumerate(c.get("post_hints", [])):          # intermediate lemmas at the return point: proved in order, then assumed
+                rid0 = sx.env.get("§ret")
+                rid0 = z3.simplify(rid0.t).as_long() if rid0 is not None else -1
+                # intermediate lemmas at the return point (post_hints: every return; post_hints_at[n]: the n-th return, -1 = falling off the end):
+                # proved in order, then assumed
+                for hn, hint in enumerate(list(c.get("post_hints", [])) + list(c.get("post_hints_at", {}).get(rid0, []))):
                     try:
                         hg = self.truth(self.ev(_parse(hint), sx, True), sx)
                     except OutOfSubset as e:
@@ -1572,6 +1597,23 @@ def _sel(T, i):
     if z3.is_quantifier(T) and T.is_lambda() and T.num_vars() == 1:
         return z3.substitute_vars(T.body(), i)
     return z3.Select(T, i)
+
+
+def _collect_apps_deep(expr, decl, acc):
+    """applications of decl anywhere in expr, also under binders"""
+    seen = set()
+    stack = [expr]
+    while stack:
+        e = stack.pop()
+        if e.get_id() in seen:
+            continue
+        seen.add(e.get_id())
+        if z3.is_quantifier(e):
+            stack.append(e.body())
+        elif z3.is_app(e):
+            if e.decl().eq(decl):
+                acc[e.get_id()] = e
+            stack.extend(e.children())
 
 
 def spec_axioms(formulas, depth=2, ranges=False, binary=False):
@@ -1763,6 +1805,14 @@ def verify(contract: dict, all_contracts: dict | None = None, ms: int = 10_000, 
         hyps = vc.hyps
         rg = "sum_ranges" in contract.get("lemmas", ())
         bn = "binary" in contract.get("lemmas", ())
+        if (rg or bn) and vc.kind != "reach":
+            # the opt-in lemma families are quantified and numerous: instantiate them only for goals that talk about sums or powers at all
+            # (dropping hypotheses is sound; a goal that needed them comes back undecided, never wrong)
+            acc_s, acc_p = {}, {}
+            _collect_apps_deep(vc.goal, SumF, acc_s)
+            _collect_apps_deep(vc.goal, Pow2, acc_p)
+            if not acc_s and not acc_p:
+                rg = bn = False
         ax = spec_axioms(hyps + [vc.goal], ranges=rg, binary=bn)
         if vc.kind == "reach":
             verdict, m, dt, be = prove(hyps + ax, vc.goal, min(ms, 2000))
